@@ -85,6 +85,8 @@ func c02Menu() []sim.TxSpec {
 		call("W", "contract:1", "", "1R"),
 		with(tr("W", "contract:0", "1R"), g60, "gas 60000"),
 		with(tr("W", "contract:1", "1R"), g60, "gas 60000"),
+		// mempool-only traffic (CheckTx, never delivered) must move no value
+		chk(tr("W", "U0", "bal-fee")), chk(stk("U0", "V1", "2R")), chk(unstk("V1", "V1", "V1", 0)), chk(wdr("V0", "84")),
 	}
 }
 
@@ -283,6 +285,7 @@ func c11Menu() []sim.TxSpec {
 		stk("U0", "U1", "1R"),
 		unstk("V1", "V1", "V1", 1),
 		unstk("U0", "U0", "U1", 0),
+		chk(stk("U1", "V1", "2R")), chk(unstk("U0", "U0", "V1", 0)), chk(unstk("V1", "V1", "V1", 0)),
 	}
 }
 
@@ -415,6 +418,7 @@ func c12Menu() []sim.TxSpec {
 		unstk("W", "U0", "V1", 0),
 		unstk("U1", "U0", "V1", 1),
 		unstk("V2", "V2", "V2", 0),
+		chk(unstk("U0", "U0", "V1", 0)), chk(unstk("V1", "V1", "V1", 0)),
 	}
 }
 
@@ -461,6 +465,7 @@ func c13Menu() []sim.TxSpec {
 		wdr("V0", "168"),
 		stk("U0", "V0", "1R"),
 		wdr("W", "1"),
+		chk(wdr("V0", "84")), chk(wdr("U0", "21")), chk(stk("U1", "V1", "3R")),
 	}
 }
 
@@ -525,9 +530,24 @@ func init() {
 			}, Menu: []sim.TxSpec{stk("U1", "V1", "1R")}, WithEnv: true, NAppend: 1, MaxD: 2, MaxDTh: 3,
 				Core: func(ss *slotSet, s slot, ch int) bool { return s.kind == slotAbsent }})
 		}
+		// misses on both sides of a restart: V2 does not sign two blocks in a row (jailed at the second with window 3 / minimum 2);
+		// restarts after heights 4, 5, 6 - the window bookkeeping must survive; single deviations add / remove misses and evidence
+		fams = append(fams, family{Name: "jail/misses-across-a-restart", Base: func() sim.History {
+			h := c14History(genesis3s())
+			h.Blocks[4].Opts.Absent = []string{"V2"}
+			h.Blocks[5].Opts.Absent = []string{"V2"}
+			return h
+		}, Menu: []sim.TxSpec{stk("U1", "V1", "1R")}, WithEnv: true, NAppend: 1, MaxD: 1, MaxDTh: 2, Restarts: []int64{4, 5, 6}})
+		fams = append(fams, family{Name: "jail/window4min2-misses-across-a-restart", Base: func() sim.History {
+			h := c14History(gWith(genesis3s(), "signedBlocksWindow", "4", "minSignedBlocks", "2"))
+			h.Blocks[3].Opts.Absent = []string{"V1"}
+			h.Blocks[5].Opts.Absent = []string{"V1"}
+			h.Blocks[6].Opts.Absent = []string{"V1"}
+			return h
+		}, Menu: []sim.TxSpec{stk("U1", "V1", "1R")}, WithEnv: true, NAppend: 1, MaxD: 1, MaxDTh: 2, Restarts: []int64{4, 5, 6}})
 		return &modelCheck{id: "C14", owners: map[string]bool{"C14": true}, families: fams, extra: slashFrame,
 			meta: modelMeta("deviation-bounded exhaustive exploration of evidence / missed-signature sequences with reference model (amounts) and per-block frame condition",
-				"C14 families: a validator with stakes of power 10,1,2,3 (so that rounding and forfeiture fire) and another with 8,5, an open two-option proposal with the offenders' votes, slash ratio in {1,33,50,100}, (window,minimum) in {(3,2),(2,2),(4,1)}; per-block evidence entry from {V1, unknown address, V2, V1 twice, V1+V2, a non-validator} and per-block missed-signature pattern, in every pair of blocks (thorough: triples). "+
+				"C14 families: a validator with stakes of power 10,1,2,3 (so that rounding and forfeiture fire) and another with 8,5, an open two-option proposal with the offenders' votes, slash ratio in {1,33,50,100}, (window,minimum) in {(3,2),(2,2),(4,1)}; per-block evidence entry from {V1, unknown address, V2, V1 twice, V1+V2, a non-validator} and per-block missed-signature pattern, in every pair of blocks (thorough: triples); two families whose base history has a validator miss signatures on both sides of a node restart (restart after height 4, 5 or 6; window/minimum (3,2) and (4,2)). "+
 					"Oracle: per piece of evidence every stake of the named validator loses floor(p*r/100) (forfeited if that is 0), its voter weight and the proposal total in OPEN proposals shrink by floor(w*r/100), an already cast vote counts with the reduced weight in its option's tally, majority recomputed; nothing else changes in that BeginBlock: delegatees other than the named ones keep exactly their stake records (frame); jailing exactly when signed blocks in the window fall below the minimum: all stakes moved to unbonding, validator leaves the set; validators above the threshold untouched.")}
 	})
 }
@@ -618,6 +638,8 @@ func c15Menu() []sim.TxSpec {
 		prop("V0", 1, 1, 1, `{}`),
 		vote("W", 0, 0), vote("V0", 0, 2), vote("U0", 0, 0),
 		stk("U1", "V1", "5R"), unstk("V2", "V2", "V2", 0),
+		// votes and a proposal that reach the mempool check only: they must leave no trace in tallies, voters, parameters
+		chk(vote("V1", 0, 0)), chk(vote("V2", 0, 0)), chk(vote("V0", 0, 1)), chk(prop("V1", 1, 1, 1, `{"slashRatio":"60"}`)),
 	}
 }
 
@@ -639,9 +661,17 @@ func init() {
 			h.Blocks[3].Txs = []sim.TxSpec{vote("V0", 0, 0), vote("V1", 0, 0), vote("V2", 0, 0)}
 			return h
 		}, Menu: c15Menu(), WithEnv: true, NAppend: 1, MaxD: 1, MaxDTh: 2})
+		// votes trickle in over two blocks and do not reach the majority; single deviations add delivered or mempool-only votes
+		fams = append(fams, family{Name: "governance/partial-votes", Base: func() sim.History {
+			h := c15History(genesis3())
+			h.Blocks[2].Txs = []sim.TxSpec{prop("V0", 1, 2, 1, `{"gasPrice":"5"}`, `{"gasPrice":"6"}`)}
+			h.Blocks[3].Txs = []sim.TxSpec{vote("V0", 0, 0)}
+			h.Blocks[4].Txs = []sim.TxSpec{vote("V2", 0, 1)}
+			return h
+		}, Menu: c15Menu(), WithEnv: true, NAppend: 1, TxSlots: true, MaxD: 1, MaxDTh: 2})
 		return &modelCheck{id: "C15", owners: map[string]bool{"C15": true}, families: fams, extra: govProbe,
 			meta: modelMeta("deviation-bounded exhaustive history exploration with reference model of proposals, votes, tally and timed application",
-				"C15 families: 0-3 inserted governance transactions per block from a 24-template menu (proposals by validator / later-joined validator / delegator / stranger with start-period-applying heights from {invalid-early, minimal, later, too long, applying too early}, option documents {one field, several fields, two options, empty}; votes and re-votes by snapshot members, a validator that joined later, outsiders, bad choice; stake changes meanwhile), evidence against voters, a family with two passed proposals applying at the SAME height, and one whose applying height lies several blocks after the close (parameters must not move before it); 10 blocks; D<=2 (thorough 3). "+
+				"C15 families: 0-3 inserted governance transactions per block from a 28-template menu (proposals by validator / later-joined validator / delegator / stranger with start-period-applying heights from {invalid-early, minimal, later, too long, applying too early}, option documents {one field, several fields, two options, empty}; votes and re-votes by snapshot members, a validator that joined later, outsiders, bad choice; votes and a proposal that only reach the mempool check (CheckTx, never delivered); stake changes meanwhile), evidence against voters, a family with two passed proposals applying at the SAME height, one whose applying height lies several blocks after the close (parameters must not move before it), and one in which votes trickle in over two blocks without reaching the majority; 10 blocks; D<=2 (thorough 3). "+
 					"Oracle: success conditions as necessary conditions (proposer in the validator set last reported, voter in the snapshot with the power recorded then, height inside the window, one vote per voter - the latest replaces); tally from the snapshot powers; pass iff at close some option >= floor(2T/3) of the recorded total; parameters unchanged before the applying height; after application every field the option leaves unset keeps its value (also relative to a second proposal applied in the same block); parameters in force == gov_params query == model at every height.")}
 	})
 }
@@ -700,6 +730,7 @@ func c16Menu() []sim.TxSpec {
 		}
 	}
 	m = append(m, deploy("U0", counterInit, "0"))
+	m = append(m, chk(tr("U0", "U1", "1")), chk(call("W", "contract:0", "", "0")))
 	// the block proposer itself takes part in a contract transaction (as sender, as value receiver, as deployer):
 	// the EVM's own coinbase accounting must stay switched off, the proposer is paid once, at the end of the block
 	m = append(m, deploy("V0", counterInit, "0"), call("V0", "contract:0", "", "0"), call("U1", "V0", "", "1R"), call("U1", "V1", "", "1R"), deploy("V1", counterInit, "1R"), call("V1", "contract:0", "", "1R"))
